@@ -296,26 +296,38 @@ static void info_cb(const SSL *s, int where, int ret)
     }
 }
 
+/* PSK suites: the otherwise unused group dimension selects the PSK length (16, 32, 48, 64 bytes): the premaster secret
+ * 2+N+2+N then runs through 36, 68, 100, 132 bytes - below, inside and above one HMAC block of either PRF hash */
+static const int psk_lens[G_N] = { 16, 32, 48, 64, 16 };
+static unsigned char g_psk[64];
+static unsigned int g_psk_len = C10_PSK_KEY_LEN;
+static void psk_select(int g)
+{
+    int i;
+    memcpy(g_psk, C10_PSK_KEY, C10_PSK_KEY_LEN);
+    for (i = C10_PSK_KEY_LEN; i < 64; i++) g_psk[i] = (unsigned char) (0x30 + 7 * i);
+    g_psk_len = (unsigned int) psk_lens[g];
+}
 static unsigned int psk_server_cb(SSL *ssl, const char *identity, unsigned char *psk, unsigned int max)
 {
     (void) ssl;
-    if (!identity || strcmp(identity, C10_PSK_ID) != 0 || max < C10_PSK_KEY_LEN)
+    if (!identity || strcmp(identity, C10_PSK_ID) != 0 || max < g_psk_len)
     {
         return 0;
     }
-    memcpy(psk, C10_PSK_KEY, C10_PSK_KEY_LEN);
-    return C10_PSK_KEY_LEN;
+    memcpy(psk, g_psk, g_psk_len);
+    return g_psk_len;
 }
 static unsigned int psk_client_cb(SSL *ssl, const char *hint, char *identity, unsigned int max_id, unsigned char *psk, unsigned int max)
 {
     (void) ssl; (void) hint;
-    if (max_id < C10_PSK_ID_LEN + 1 || max < C10_PSK_KEY_LEN)
+    if (max_id < C10_PSK_ID_LEN + 1 || max < g_psk_len)
     {
         return 0;
     }
     strcpy(identity, C10_PSK_ID);
-    memcpy(psk, C10_PSK_KEY, C10_PSK_KEY_LEN);
-    return C10_PSK_KEY_LEN;
+    memcpy(psk, g_psk, g_psk_len);
+    return g_psk_len;
 }
 
 static int cookie_gen_cb(SSL *ssl, unsigned char *cookie, unsigned int *len)
@@ -548,7 +560,8 @@ static int make_mkeys(const cell_t *c, sslKeys_t **out)
     *out = k;
     if (c->cred == CR_NONE)
     {
-        rc = matrixSslLoadPsk(k, C10_PSK_KEY, C10_PSK_KEY_LEN, (const unsigned char *) C10_PSK_ID, C10_PSK_ID_LEN);
+        psk_select(c->group);
+        rc = matrixSslLoadPsk(k, g_psk, (uint8_t) g_psk_len, (const unsigned char *) C10_PSK_ID, C10_PSK_ID_LEN);
     }
     else
     {
@@ -1416,10 +1429,22 @@ done:
 }
 
 /* -------------------------------------------------------------------------------- descriptors, keys */
+static const char *gsel(const cell_t *c)
+{
+    static char pl[4][16];
+    static int k;
+    if (c->cred == CR_NONE && c->ver != V_TLS13)
+    {
+        k = (k + 1) & 3;
+        snprintf(pl[k], sizeof(pl[k]), "psk%d", psk_lens[c->group]);
+        return pl[k];
+    }
+    return gname[c->group];
+}
 static void cell_human(const cell_t *c, char *out, size_t n)
 {
     snprintf(out, n, "%s %s %s group=%s%s cred=%s sig=%s %s %s%s%s", rname[c->role], ver_name(c->ver), suite_name(c->suite),
-        gname[c->group], c->hrr ? "+hrr" : "", c10_creds[c->cred].name, sigs[c->sig].name, c->cauth ? "client-auth" : "no-client-auth",
+        gsel(c), c->hrr ? "+hrr" : "", c10_creds[c->cred].name, sigs[c->sig].name, c->cauth ? "client-auth" : "no-client-auth",
         mname[c->resm], c->noems ? " no-ems" : (c->cookie ? " cookie-exchange" : ""),
         (c->role == R_MSRV && c->ver != V_TLS13) ? (c->legacy ? " openssl-legacy-server-connect" : " openssl-defaults") : "");
 }
@@ -1522,7 +1547,7 @@ static void attribute(const cell_t *c, const cres_t *r0, char *feature, size_t f
             }
             else
             {
-                snprintf(f, sizeof(f), "group=%s%s", gname[c->group], c->hrr ? "+hrr" : "");
+                snprintf(f, sizeof(f), "group=%s%s", gsel(c), c->hrr ? "+hrr" : "");
             }
         }
     }
@@ -1600,7 +1625,7 @@ static void attribute(const cell_t *c, const cres_t *r0, char *feature, size_t f
         }
         return;
     }
-    snprintf(feature, fn, "%s+group=%s%s+cred=%s+sig=%s%s+%s%s", suite_name(c->suite), gname[c->group], c->hrr ? "+hrr" : "",
+    snprintf(feature, fn, "%s+group=%s%s+cred=%s+sig=%s%s+%s%s", suite_name(c->suite), gsel(c), c->hrr ? "+hrr" : "",
         c10_creds[c->cred].name, sigs[c->sig].name, c->cauth ? "+client-auth" : "", mname[c->resm], c->noems ? "+no-ems" : (c->cookie ? "+cookie" : ""));
 }
 
@@ -1922,6 +1947,8 @@ static int in_quick(const cell_t *c, const suite_t *su)
         return is_base;                                                                    /* all credentials and schemes x client-auth */
     }
     if (c->noems || c->cookie) return rep && base_dims && !c->cauth;  /* plain master secret / DTLS cookie: class representatives x resumption */
+    if (base_dims && !c->cauth && c->resm == M_NONE) return 1;        /* every suite once (PRF hash x MAC x cipher combinations) */
+    if (c->group != G_DEF && c->sig == S_DEF && c->cred == base_cred_for(c) && !c->cauth && c->resm == M_NONE && !c->legacy) return 1;   /* every suite x every group (premaster length x PRF hash) */
     if (rep && base_dims) return 1;                                   /* class representatives x client-auth x resumption */
     if (is_base && c->resm == M_NONE)
     {
@@ -2020,7 +2047,7 @@ static void build_cells(void)
             {
                 cell_t c;
                 int has_kx_group = su->type == CS_ECDHE_RSA || su->type == CS_ECDHE_ECDSA || su->type == CS_TLS13;
-                if (g != G_DEF && !has_kx_group) continue;
+                if (g != G_DEF && !has_kx_group && !(su->type == CS_PSK && g <= G_P521 && !resm && !noems)) continue;
                 if (g == G_X25519 && ver != V_TLS13) continue;         /* MatrixSSL: X25519 only in TLS 1.3 (tls13KeyAgree.c) */
                 if (hrr && (ver != V_TLS13 || g == G_DEF)) continue;
                 if (cauth && su->type == CS_PSK) continue;
